@@ -43,7 +43,7 @@ def _run_harness(path, text, harness, extra, timeout):
             pass
     # one private directory per harness: concurrent kani runs on one file clobber each other's artifacts
     import shutil
-    wd = os.path.join(BUILD, 'kani', os.path.basename(path)[:-3], harness)
+    wd = os.path.join(BUILD, 'kani', os.path.basename(path)[:-3], f'{harness}.{os.getpid()}')
     shutil.rmtree(wd, ignore_errors=True)
     os.makedirs(wd)
     local = os.path.join(wd, os.path.basename(path))
@@ -98,8 +98,8 @@ def run_unit(unit, meta, seed=0, tier='quick'):
         return u
     u.g = g
     gpath = os.path.join(BUILD, f'{unit.replace("-", "_")}.rs')
-    with open(gpath, 'w') as f:
-        f.write(g.text)
+    from .run import _atomic_write
+    _atomic_write(gpath, g.text)
     # harness table
     lines = g.text.split('\n')
     harnesses = []   # (fn, label, props, mode, gen_line)
